@@ -30,6 +30,33 @@ class Infra(Exception):
     """Something in the machinery (not the code under test) failed: exit 2."""
 
 
+class LibraryCrash(Exception):
+    """The runner process died from a panic raised inside the library, in a goroutine the harness cannot
+    guard (for instance the request goroutine of duplexHTTPCall): a violation of every "never panics"."""
+
+
+def library_panic(stderr):
+    """The text of the crash if the first non-runtime frame of the panicking goroutine is library code."""
+    i = stderr.find("panic: ")
+    if i < 0:
+        i = stderr.find("fatal error: ")
+    if i < 0:
+        return None
+    j = stderr.find("[running]:", i)
+    if j < 0:
+        return None
+    for line in stderr[j:].splitlines()[1:40]:
+        if line.startswith(("\t", " ")) or not line.strip():
+            continue
+        fn = line.strip()
+        if fn.startswith(("panic(", "runtime.", "runtime/", "created by")):
+            continue
+        if fn.startswith("github.com/bufbuild/connect-go.") or fn.startswith("github.com/bufbuild/connect-go/cmd/"):
+            return stderr[i:i + 6000]
+        return None
+    return None
+
+
 def log(*a):
     print(*a, file=sys.stderr, flush=True)
 
@@ -234,6 +261,9 @@ def run_runner(ctx, family, scenarios, tag=None, race=False, timeout=3600, args=
         log("[run] %s: runner killed (rc=%d), retrying with 2 workers" % (family, r.returncode))
         r = subprocess.run(cmd + ["-workers", "2"], env=e, capture_output=True, text=True, timeout=timeout * 4)
     if r.returncode != 0:
+        crash = library_panic(r.stderr)
+        if crash:
+            raise LibraryCrash(crash)
         raise Infra("runner failed (%s): rc=%d\n%s" % (family, r.returncode, (r.stdout + r.stderr)[-4000:]))
     log("[run] %s: %d scenarios, %.1fs %s" % (family, len(scenarios), time.time() - t, r.stderr.strip()[-300:]))
     ctx.counts["evaluations"] += len(scenarios)
